@@ -49,8 +49,27 @@ def build(d):
     """d = ("U", ess, params, unit) | ("N", x) | ("C",) | ("X",)"""
     UN, convert_pbox, Pbox, Interval, pint = _mods()
     k = d[0]
+    if k == "U" and len(d) > 4:
+        # less common entry points / operand representations of the same uncertain number
+        import pyuncertainnumber as pun
+        from pyuncertainnumber.pba.pbox_parametric import named_pbox
+        from pyuncertainnumber.pba.dss import DempsterShafer
+        _, ess, par, unit, style = d
+        if ess == "I":
+            u = {0: lambda: pun.I(list(par)), 1: lambda: pun.I(par[0], par[1]), 2: lambda: pun.I(Interval(par[0], par[1])),
+                 3: lambda: pun.I(tuple(par)), 4: lambda: UN(essence="interval", intervals=Interval(par[0], par[1]))}[style % 5]()
+        elif ess == "D":
+            u = pun.D(par[0], tuple(par[1])) if style % 2 == 0 else UN(essence="distribution", distribution_parameters=[par[0], list(par[1])])
+        elif ess == "P":
+            u = UN.fromConstruct(named_pbox[par[0]](*[list(x) for x in par[1]])) if style % 2 == 0 else \
+                UN(essence="pbox", pbox_parameters=[par[0], [tuple(x) for x in par[1]]])
+        else:
+            u = pun.DSS([list(x) for x in par[0]], list(par[1])) if style % 2 == 0 else \
+                UN.fromConstruct(DempsterShafer([list(x) for x in par[0]], list(par[1])))
+        u.unit = unit
+        return u
     if k == "U":
-        _, ess, par, unit = d
+        _, ess, par, unit = d[:4]
         if ess == "I":
             return UN(essence="interval", intervals=list(par), unit=unit)
         if ess == "D":
@@ -106,7 +125,11 @@ def canon(r):
     UN, convert_pbox, Pbox, Interval, pint = _mods()
     if isinstance(r, UN):
         l, h = bounds(r.construct)
-        return ("ok", "un", l, h, dim_of(r.physical_quantity))
+        try:
+            mag = float(r.physical_quantity.magnitude)
+        except Exception:
+            mag = None
+        return ("ok", "un", l, h, dim_of(r.physical_quantity), "I" if isinstance(r.construct, Interval) else "P", mag)
     try:
         l, h = bounds(r)
         return ("ok", "raw:" + type(r).__name__, l, h, None)
@@ -199,7 +222,7 @@ def model_expect(rep, Lobj, Robj, dl, dr):
             l, h = bounds(c)
     except BaseException as e:  # noqa
         return ("err", ekind(e))
-    return ("ok", l, h, tuple(unq(x) for x in t[2:5]), t[1])
+    return ("ok", l, h, tuple(unq(x) for x in t[2:5]), t[1], t[5] if len(t) > 5 else None, unq(t[6]) if len(t) > 6 else None)
 
 
 def same_bounds(l1, h1, l2, h2, exact=True, depth=3):
@@ -233,7 +256,15 @@ def agrees(impl, exp):
         return impl[0] == exp[0] and impl[1] == exp[1]
     if impl[1] != "un":
         return False
-    return same_bounds(impl[2], impl[3], exp[1], exp[2], exact=True) and same_dim(impl[4], exp[3])
+    if not (same_bounds(impl[2], impl[3], exp[1], exp[2], exact=True) and same_dim(impl[4], exp[3])):
+        return False
+    if exp[5] is not None and impl[5] != exp[5]:
+        return False              # class of the new construct (Interval stays Interval, else p-box)
+    if exp[6] is not None and "pow" not in exp[4] and impl[6] is not None and math.isfinite(impl[6]):
+        m = max(abs(impl[6]), abs(float(exp[6])), 1e-300)
+        if abs(F(impl[6]) - exp[6]) > F(m) * F(1, 10 ** 12):
+            return False          # magnitude of the new pint quantity (operand order matters for c - U, c / U)
+    return True
 
 
 # ---- semantic oracle ---------------------------------------------------------------------------
@@ -475,6 +506,37 @@ def gen_cases(ctx):
             else:
                 U = rand_un()
             cases.append(("random-Uc", op, U, ("N", c)) if side == "r" else ("random-cU", op, ("N", c), U))
+    # 4b. extreme constants (below machine epsilon, above 1e15) and thin-but-not-degenerate operands
+    thin = [("I", [1.0, 1.0 + 1e-9]), ("I", [2e-9, 8e-9]), ("I", [5.0, 5.00001]), ("D", ["uniform", (3.0, 3.0 + 1e-7)]),
+            ("P", ["uniform", ([1.0, 1.0 + 1e-8], [2.0, 2.0 + 1e-8])]), ("S", ([[1.0, 1.0 + 1e-9], [1.0 + 2e-9, 1.0 + 3e-9]], [0.5, 0.5]))]
+    for e, op, side in itertools.product(E, ["add", "sub", "mul", "div"], "rl"):
+        for c in rng.sample([1e-20, 2.0 ** -60, 1.380649e-23, 1e18, -1e-20, 3e15], 2 if ctx.tier == "quick" else 6):
+            p = pick(rng, e, ("pos", "neg"))
+            U = ("U", e, p[1], rng.choice(BASE_UNITS))
+            cases.append(("extreme-Uc", op, U, ("N", c)) if side == "r" else ("extreme-cU", op, ("N", c), U))
+    for (e, par), op in itertools.product(thin, ["add", "sub", "mul", "div"]):
+        u = rng.choice(BASE_UNITS)
+        U = ("U", e, par, u)
+        c = rng.choice([2, -3, 0.5, 1e-20, 1e18])
+        cases.append(("thin-Uc", op, U, ("N", c)))
+        cases.append(("thin-cU", op, ("N", c), U))
+        e2, par2 = rng.choice(thin)
+        cases.append(("thin-UU", op, U, ("U", e2, par2, u if op in ("add", "sub") else rng.choice(BASE_UNITS))))
+        cases.append(("grid-neg", "neg", U, None))
+    # 4c. the same uncertain numbers through the shortcuts / other operand representations (pun.I(list|2 args|Interval|tuple),
+    #     ndarray bounds, pun.D, list parameters, fromConstruct(named p-box), pun.DSS, fromConstruct(DempsterShafer)); unit set afterwards
+    for e, op in itertools.product(E, OPS):
+        for style in range(5 if e == "I" else 2):
+            p = pick(rng, e, ("pos",))
+            U = ("U", e, p[1], rng.choice(["m", "s", None]), style)
+            e2 = rng.choice(E)
+            V = ("U", e2, pick(rng, e2, ("pos",))[1], (U[3] if op in ("add", "sub") else (None if op == "pow" else rng.choice(BASE_UNITS))), rng.randrange(10))
+            c = rng.choice([2, 3, 0.5]) if op != "pow" else 2
+            cases.append(("entry-UU", op, U, V))
+            cases.append(("entry-Uc", op, U, ("N", c)))
+            if op != "pow":
+                cases.append(("entry-cU", op, ("N", c), U))
+        cases.append(("grid-neg", "neg", ("U", e, pick(rng, e)[1], "m", rng.randrange(10)), None))
     # 5. operands that are not numbers / uncertain numbers (compared on the error kind only)
     for e, op in itertools.product(E, OPS):
         p = pick(rng, e, ("pos",))
@@ -493,11 +555,16 @@ def run(ctx: core.Check, cases=None):
                 "essence x 9 unit strings x all parameter sets; random parameters with derived units (m/s, m**2, kg*m/s**2, 1/s); "
                 "bare constructs and None as right operand. Non-trivial unless the plain number is the neutral element of the operator; "
                 "distinct on (operator, operands, units). Plus a 'chained' history stream: a second operation (-D, 1-D, D*V, D+D, (-D)+D) applied to the "
-                "result D of a first one (2*U, U+1, U**2, 3/U, U/V, U*V).")
+                "result D of a first one (2*U, U+1, U**2, 3/U, U/V, U*V). Plus a 'dependency' stream (U op V inside pba.dependency(d), d in f,p,o,i, against the same operator "
+                "on the converted constructs in that context) and a 'history' stream (fixed and random sequences of 3-6 operations over a pool of operands: "
+                "use-then-negate-then-reuse, exponents built by reflected subtraction; every object is shadowed by the construct library on separately built "
+                "operands, re-read at the end of the history and, for the last 40 histories, at the end of the stream). Plus extreme constants (1e-20, 2**-60, k_B, 1e18, 3e15), "
+                "thin-but-not-degenerate operands (relative width 1e-9..1e-5, [2e-9,8e-9]), the same numbers through the shortcuts pun.I/pun.D/pun.DSS/fromConstruct "
+                "with list/tuple/Interval arguments, and a 'hist-tie' stream: chains acc op c / c op acc / acc op acc / -acc against Pun.UN.runHist.")
     ctx.assumptions = [
         "arithmetic of the constructs themselves (interval, Frechet p-box, p-box∘number) is a parameter of the model (C01/C02/C06 prove it); "
         "the tie evaluates the model's construct-level call with the real library",
-        "magnitudes of the pint quantities (nominal values) are not compared; only pint dimensionality of base units m, s, kg (no prefixes, no offsets)",
+        "magnitudes of the pint quantities are compared only in the history stream and only for numbers derived linearly from intervals (c - U, -U, U + V ...), where they decide the unit of a later power; elsewhere only pint dimensionality of base units m, s, kg (no prefixes, no offsets)",
         "U ** V with a dimensional base and an uncertain exponent has no meaning in the statement: only the error/dimensionless cases are judged",
         "division by / reflected division of non-interval constructs straddling zero is not generated (the construct library only warns there)",
         "numpy scalars, bool and complex operands are not generated",
@@ -507,6 +574,9 @@ def run(ctx: core.Check, cases=None):
     if cases is None:
         cases = gen_cases(ctx)
         chained_stream(ctx)
+        dependency_stream(ctx)
+        history_stream(ctx)
+        hist_tie_stream(ctx)
     UN, convert_pbox, Pbox, Interval, pint = _mods()
     built = []
     reqs = []
@@ -625,6 +695,419 @@ def chained_stream(ctx):
                     ctx.fail({"op": sn, "form": "chained", "first": fn, "symptom": "wrong-construct"}, case,
                              f"construct of {sn}({fn}(U)) differs from the same operations on the constructs")
     return n
+
+
+# ---- operators inside `with pba.dependency(d)` --------------------------------------------------------
+def dependency_stream(ctx):
+    """U op V evaluated inside `with pba.dependency(d)` for d in f,p,o,i must be the same operator applied to the
+    converted constructs INSIDE THE SAME CONTEXT (construct of the result = same operation on the constructs)."""
+    UN, convert_pbox, Pbox, Interval, pint = _mods()
+    import pyuncertainnumber.pba as pba
+    rng = ctx.rng
+    pairs = [("D", "D"), ("D", "P"), ("P", "S"), ("S", "D"), ("P", "P"), ("D", "I"), ("I", "S")]
+    differs = 0
+    for d in "fpoi":
+        for (le, re_) in pairs:
+            for op in OPS:
+                if ctx.tier == "quick" and rng.random() < 0.35 and (le, re_) != ("D", "D"):
+                    continue
+                lp, rp = pick(rng, le, ("pos",)), pick(rng, re_, ("pos",))
+                u = rng.choice(BASE_UNITS)
+                v = u if op in ("add", "sub") else (None if op == "pow" else rng.choice(BASE_UNITS))
+                dl, dr = ("U", le, lp[1], u), ("U", re_, rp[1], v)
+                case = {"stream": "dependency", "dependency": d, "op": op, "l": dl, "r": dr}
+                ctx.count(("dep", d, op, dl, dr), True, "dependency:" + d)
+                L, R = build(dl), build(dr)
+                L2, R2 = build(dl), build(dr)           # separately built operands for the reference
+                with warnings.catch_warnings():
+                    warnings.simplefilter("ignore")
+                    with pba.dependency(d):
+                        impl = run_impl(op, L, R)
+                        try:
+                            ref = ("ok",) + bounds(OPS[op](convert_pbox(L2.construct), convert_pbox(R2.construct)))
+                        except BaseException as e:  # noqa
+                            ref = ("err", ekind(e))
+                    try:
+                        free = bounds(OPS[op](convert_pbox(L2.construct), convert_pbox(R2.construct)))
+                    except BaseException:  # noqa
+                        free = None
+                feat = {"op": op, "form": "UU", "less": le, "ress": re_, "dependency": d, "call": "UncertainNumber operator inside pba.dependency",
+                        "symptom": ("raises:" + impl[1]) if impl[0] == "err" else "value"}
+                if ref[0] == "err":
+                    if impl[0] != "err":
+                        ctx.fail(dict(feat, symptom="value-where-construct-raises"), case, f"dependency({d!r}): {describe(op, dl, dr)}: the constructs raise {ref[1]} but the operator returns a value")
+                    continue
+                if free is not None and not same_bounds(ref[1], ref[2], free[0], free[1]):
+                    differs += 1
+                if impl[0] == "err":
+                    ctx.fail(feat, case, f"dependency({d!r}): {describe(op, dl, dr)} raises {impl[1]}; the same operation on the constructs succeeds")
+                elif impl[1] != "un" or not same_bounds(impl[2], impl[3], ref[1], ref[2], exact=True):
+                    ctx.fail(dict(feat, check="construct"), case,
+                             f"inside pba.dependency({d!r}): {describe(op, dl, dr)} has construct [{impl[2][0]:.6g}..{impl[2][-1]:.6g}],[{impl[3][0]:.6g}..{impl[3][-1]:.6g}] but the same "
+                             f"operator on the converted constructs in that context gives [{ref[1][0]:.6g}..{ref[1][-1]:.6g}],[{ref[2][0]:.6g}..{ref[2][-1]:.6g}]")
+                else:
+                    wd = spec_dim(op, dl, dr, None)
+                    if wd not in (None, "dimerr") and not same_dim(impl[4], wd):
+                        ctx.fail(dict(feat, check="unit"), case, f"dependency({d!r}): {describe(op, dl, dr)}: dimension {impl[4]}, unit algebra gives {tuple(float(x) for x in wd)}")
+    ctx.bump("dependency:context-changes-result", differs)
+    if differs == 0:
+        ctx.notes.append("dependency stream: no case where the context changed the construct-level result (stream would be vacuous)")
+
+
+# ---- histories: operands reused, negated, results kept alive -------------------------------------------
+class _Node:
+    """one uncertain number of a history: the real object + an independent shadow (construct computed by the
+    construct library from SEPARATELY built operands), its expected dimension and pint magnitude"""
+    __slots__ = ("obj", "shadow", "dim", "mag", "linear", "text", "canon")
+
+    def __init__(self, obj, shadow, dim, mag, linear, text):
+        self.obj, self.shadow, self.dim, self.mag, self.linear, self.text = obj, shadow, dim, mag, linear, text
+        self.canon = None
+
+
+def _sign(shadow):
+    l, h = bounds(shadow)
+    if min(l) > 0:
+        return "pos"
+    if max(h) < 0:
+        return "neg"
+    return "str"
+
+
+def _verify(ctx, node, case, when, check_mag=True):
+    """real object against its shadow: construct, dimension, magnitude. returns True if fine"""
+    impl = canon(node.obj)
+    sl, sh = bounds(node.shadow)
+    feat = {"form": "history", "when": when, "call": "UncertainNumber operators in sequence", "symptom": "value"}
+    if impl[1] != "un":
+        ctx.fail(dict(feat, symptom="not-an-UncertainNumber"), case, f"{node.text}: not an UncertainNumber ({when})")
+        return False
+    if not same_bounds(impl[2], impl[3], sl, sh, exact=True):
+        ctx.fail(dict(feat, check="construct"), case,
+                 f"{node.text} ({when}): construct [{impl[2][0]:.6g}..{impl[2][-1]:.6g}],[{impl[3][0]:.6g}..{impl[3][-1]:.6g}] differs from the same operations on the constructs "
+                 f"[{sl[0]:.6g}..{sl[-1]:.6g}],[{sh[0]:.6g}..{sh[-1]:.6g}]")
+        return False
+    if node.dim is not None and not same_dim(impl[4], node.dim):
+        ctx.fail(dict(feat, check="unit"), case, f"{node.text} ({when}): dimension (m,s,kg) {impl[4]}, unit algebra gives {tuple(float(x) for x in node.dim)}")
+        return False
+    if check_mag and node.linear and node.mag is not None:
+        m = float(node.obj.physical_quantity.magnitude)
+        if not close(m, F(node.mag), 8) and abs(m - node.mag) > 1e-9 * max(1.0, abs(node.mag)):
+            ctx.fail(dict(feat, check="magnitude"), case, f"{node.text} ({when}): the physical quantity has magnitude {m!r}; the same operation on the operands' quantities gives {node.mag!r}")
+    node.canon = impl
+    return True
+
+
+def _apply(step, pool):
+    """returns (real thunk, shadow thunk, dim | 'dimerr' | None, mag, linear, text)"""
+    UN, convert_pbox, Pbox, Interval, pint = _mods()
+    kind = step[0]
+    zero = (F(0),) * 3
+    if kind == "neg":
+        a = pool[step[1]]
+        return (lambda: -a.obj), (lambda: -a.shadow), a.dim, -a.mag, a.linear, f"-({a.text})"
+    op = step[1]
+    f = OPS[op]
+    if kind == "UU":
+        a, b = pool[step[2]], pool[step[3]]
+        if op in ("add", "sub"):
+            dim = a.dim if a.dim == b.dim else "dimerr"
+        elif op == "mul":
+            dim = tuple(x + y for x, y in zip(a.dim, b.dim))
+        elif op == "div":
+            dim = tuple(x - y for x, y in zip(a.dim, b.dim))
+        else:
+            dim = "dimerr" if b.dim != zero else (zero if a.dim == zero else (tuple(x * F(b.mag) for x in a.dim) if b.linear else None))
+        try:
+            mag = f(a.mag, b.mag)
+        except Exception:
+            mag = None
+        return (lambda: f(a.obj, b.obj)), (lambda: f(convert_pbox(a.shadow), convert_pbox(b.shadow))), dim, mag, \
+            (a.linear and b.linear and op in ("add", "sub")), f"({a.text}) {SYM[op]} ({b.text})"
+    if kind == "Uc":
+        a, c = pool[step[2]], step[3]
+        dim = a.dim if op in ("add", "sub", "mul", "div") else tuple(x * F(c) for x in a.dim)
+        try:
+            mag = f(a.mag, c)
+        except Exception:
+            mag = None
+        return (lambda: f(a.obj, c)), (lambda: f(a.shadow, c)), dim, mag, (a.linear and op in ("add", "sub", "mul", "div")), f"({a.text}) {SYM[op]} {c!r}"
+    if kind == "cU":
+        c, a = step[2], pool[step[3]]
+        if op in ("add", "sub", "mul"):
+            dim = a.dim
+        elif op == "div":
+            dim = tuple(-x for x in a.dim)
+        else:
+            dim = zero if a.dim == zero else "dimerr"
+        try:
+            mag = f(c, a.mag)
+        except Exception:
+            mag = None
+
+        def sh():
+            if op in ("add", "mul"):
+                return f(a.shadow, c)            # c + U := U + c, c * U := U * c
+            base = a.shadow if (isinstance(a.shadow, Interval) and op != "pow") else convert_pbox(a.shadow)
+            return f(c, base)
+        return (lambda: f(c, a.obj)), sh, dim, mag, (a.linear and op in ("add", "sub", "mul")), f"{c!r} {SYM[op]} ({a.text})"
+    raise ValueError(step)
+
+
+def _random_step(rng, pool):
+    zero = (F(0),) * 3
+    for _ in range(30):
+        r = rng.random()
+        i = rng.randrange(len(pool))
+        a = pool[i]
+        sa = _sign(a.shadow)
+        if r < 0.22:
+            return ("neg", i)
+        if r < 0.5:
+            j = rng.randrange(len(pool))
+            b = pool[j]
+            sb = _sign(b.shadow)
+            op = rng.choice(["add", "sub", "add", "sub", "mul", "div", "pow"])
+            if op in ("add", "sub") and a.dim != b.dim and rng.random() < 0.8:
+                continue
+            if op == "mul" and "str" in (sa, sb) and not (isinstance(a.shadow, _mods()[3]) and isinstance(b.shadow, _mods()[3])):
+                continue
+            if op == "div" and (sb == "str" or sa == "str"):
+                continue
+            if op == "pow":
+                bl, bh = bounds(b.shadow)
+                al, ah = bounds(a.shadow)
+                if sa != "pos" or sb != "pos" or max(bh) > 3 or max(ah) > 50 or min(al) < 0.05 or b.dim != zero:
+                    continue
+                if a.dim != zero and not b.linear:
+                    continue
+            return ("UU", op, i, j)
+        c = rng.choice([2, 3, -1, 0.5, 10, -2.5, 4.0, 1])
+        if r < 0.75:
+            op = rng.choice(["add", "sub", "mul", "div", "pow"])
+            if op == "div" and c == 0:
+                continue
+            if op == "pow":
+                c = rng.choice([2, 3, -1, 0.5])
+                al, ah = bounds(a.shadow)
+                if sa != "pos" or max(ah) > 50 or min(al) < 0.05:
+                    continue
+                if isinstance(a.shadow, _mods()[3]) and not isinstance(c, int):
+                    continue
+            return ("Uc", op, i, c)
+        op = rng.choice(["add", "sub", "sub", "mul", "div", "div", "pow"])
+        if op == "div" and sa == "str":
+            continue
+        if op == "pow":
+            c = rng.choice([2, 3.0, 1.5])
+            al, ah = bounds(a.shadow)
+            if a.dim != zero or max(ah) > 8 or min(al) < -8:
+                continue
+        return ("cU", op, c, i)
+    return ("neg", 0)
+
+
+FIXED_HISTORIES = [
+    # (operands, steps) ; pool indices: 0..k-1 the operands, then the results in order
+    ("neg-after-use", [("I", [1, 2], "m"), ("I", [10, 20], "m")], [("UU", "add", 0, 1), ("neg", 0), ("UU", "add", 3, 1), ("UU", "sub", 1, 3), ("cU", "sub", 10, 3), ("UU", "mul", 3, 1)]),
+    ("neg-after-use", [("D", ["uniform", (2, 4)], "s"), ("D", ["uniform", (1, 3)], "s")], [("UU", "add", 0, 1), ("neg", 0), ("cU", "sub", 10, 3), ("UU", "add", 3, 1), ("cU", "div", 2, 3)]),
+    ("neg-after-use", [("P", ["uniform", ([1, 2], [3, 4])], None), ("S", ([[1, 5], [3, 6]], [0.5, 0.5]), None)], [("cU", "sub", 7, 0), ("neg", 0), ("UU", "add", 3, 1), ("cU", "sub", 1, 3), ("UU", "sub", 1, 3)]),
+    ("neg-after-use", [("S", ([[1, 5], [3, 6]], [0.5, 0.5]), "kg"), ("I", [2, 3], "kg")], [("UU", "mul", 0, 1), ("cU", "div", 2, 0), ("neg", 0), ("UU", "add", 4, 1), ("neg", 4), ("UU", "sub", 6, 0)]),
+    ("exponent-by-reflected-sub", [("I", [2, 3], "m"), ("I", [0.5, 1.5], None)], [("cU", "sub", 3, 1), ("UU", "pow", 0, 2), ("Uc", "sub", 1, 3), ("neg", 4), ("UU", "pow", 0, 5)]),
+    ("exponent-by-reflected-sub", [("P", ["uniform", ([1, 2], [3, 4])], "s"), ("I", [0.25, 0.75], "dimensionless")], [("cU", "sub", 2, 1), ("UU", "pow", 0, 2), ("cU", "sub", 1, 1), ("UU", "pow", 0, 4)]),
+    ("exponent-by-reflected-sub", [("I", [1, 2], "kg*m/s**2"), ("I", [1, 2], None)], [("cU", "sub", 4, 1), ("Uc", "mul", 2, 0.5), ("UU", "pow", 0, 3)]),
+]
+
+
+def history_stream(ctx):
+    """theme A: an operand takes part in one operation and is then negated / reused in another; every real object is
+    compared with an independent shadow when produced, all of them are re-read at the end of the history (operands
+    unchanged, results unchanged) and the objects of the last histories are kept alive and re-read at the end of the
+    stream.  A third of the histories run inside `with pba.dependency(d)`."""
+    UN, convert_pbox, Pbox, Interval, pint = _mods()
+    import pyuncertainnumber.pba as pba
+    rng = ctx.rng
+    alive = []
+    scripts = [(name, [("U",) + o for o in opds], steps, "f") for name, opds, steps in FIXED_HISTORIES]
+    for name, opds, steps in FIXED_HISTORIES[:4]:
+        scripts.append((name, [("U",) + o for o in opds], steps, rng.choice("poi")))
+    for _ in range(ctx.scale(70, 900)):
+        k = rng.choice([2, 2, 3])
+        opds = []
+        for _ in range(k):
+            e = rng.choice("IIDPS")
+            sg = rng.choice(["pos", "pos", "pos", "neg", "str"]) if e == "I" else rng.choice(["pos", "pos", "neg"])
+            u = rng.choice([None, None, "m", "m", "s", "kg", "m/s", "dimensionless"])
+            opds.append(("U", e, pick(rng, e, (sg,))[1], u))
+        if rng.random() < 0.5:
+            opds[1] = opds[1][:3] + (opds[0][3],)
+        scripts.append(("random", opds, None, rng.choice("fffpoi")))
+    for name, opds, steps, dep in scripts:
+        case = {"stream": "history", "name": name, "dependency": dep, "operands": [describe_opd(o) for o in opds], "steps": []}
+        with warnings.catch_warnings():
+            warnings.simplefilter("ignore")
+            with pba.dependency(dep):
+                pool = []
+                for n_, o in enumerate(opds):
+                    obj, ref = build(o), build(o)
+                    nd = _Node(obj, ref.construct, tuple(F(x) for x in UNITS[o[3]]), float(ref.physical_quantity.magnitude),
+                               o[1] == "I", f"{'UVW'[n_]}[{o[1]} {o[2]} {o[3]}]")
+                    pool.append(nd)
+                    _verify(ctx, nd, case, "operand as built", check_mag=False)
+                nsteps = len(steps) if steps is not None else rng.randint(3, 6)
+                ok = True
+                for t in range(nsteps):
+                    step = steps[t] if steps is not None else _random_step(rng, pool)
+                    case["steps"].append(list(step))
+                    real, shadow, dim, mag, linear, text = _apply(step, pool)
+                    ctx.count(("history", name, dep, repr(opds), repr(case["steps"])), True, "history")
+                    try:
+                        S = shadow()
+                        bounds(S)
+                        serr = None
+                    except BaseException as e:  # noqa
+                        serr = ekind(e)
+                    try:
+                        R = real()
+                        rerr = None
+                    except BaseException as e:  # noqa
+                        rerr = ekind(e)
+                    feat = {"form": "history", "when": "produced", "call": "UncertainNumber operators in sequence", "op": step[1] if step[0] != "neg" else "neg"}
+                    if serr is not None:
+                        if rerr is None:
+                            ctx.fail(dict(feat, symptom="value-where-construct-raises"), dict(case), f"{text}: the constructs raise {serr}, the operator returns a value")
+                        break
+                    if dim == "dimerr":
+                        if rerr != "Dimensionality":
+                            ctx.fail(dict(feat, check="unit", symptom="value" if rerr is None else "raises:" + rerr), dict(case), f"{text}: incompatible dimensions must be an error, got {rerr or 'a value'}")
+                        continue
+                    if rerr is not None:
+                        ctx.fail(dict(feat, symptom="raises:" + rerr), dict(case), f"{text}: raises {rerr}; the same operations on the constructs succeed")
+                        break
+                    nd = _Node(R, S, dim, mag, linear, text)
+                    if not _verify(ctx, nd, dict(case), "produced"):
+                        ok = False
+                        break
+                    pool.append(nd)
+                # re-read everything: operands unchanged, earlier results unchanged
+                if ok:
+                    for nd in pool:
+                        before = nd.canon
+                        if not _verify(ctx, nd, dict(case), "re-read at the end of the history", check_mag=False):
+                            break
+                        if before is not None and before != nd.canon:
+                            ctx.fail({"form": "history", "when": "re-read", "check": "changed"}, dict(case), f"{nd.text}: the object changed after later operations")
+                            break
+        alive.append((pool, case))
+        if len(alive) > 40:
+            alive.pop(0)
+    for pool, case in alive:
+        for nd in pool:
+            if nd.canon is not None:
+                before = nd.canon
+                with warnings.catch_warnings():
+                    warnings.simplefilter("ignore")
+                    if not _verify(ctx, nd, dict(case), "re-read at the end of the stream", check_mag=False) or before != nd.canon:
+                        break
+
+
+def hist_tie_stream(ctx):
+    """tie of `Pun.UN.runHist`: a chain of operators (acc op c, c op acc, acc op acc, -acc) on one uncertain number, the real
+    chain against the model's final term (evaluated by the construct library on a separately built construct), dimension,
+    class and magnitude; the model is run with the coded table and with the specified table (theorem hist_spec)."""
+    UN, convert_pbox, Pbox, Interval, pint = _mods()
+    rng = ctx.rng
+    jobs, reqs = [], []
+    for _ in range(ctx.scale(120, 1500)):
+        e = rng.choice("IIDPS")
+        d = ("U", e, pick(rng, e, ("pos",))[1], rng.choice([None, None, "m", "s", "kg", "m/s"]))
+        steps, toks = [], []
+        neg = False
+        for _ in range(rng.randint(2, 5)):
+            r = rng.random()
+            if neg:                      # bring a negated number back: c - acc
+                c = rng.choice([1, 2.5, 10])
+                steps.append(("L", "sub", c)); toks += ["L", "sub", q(c)]; neg = False
+            elif r < 0.3:
+                op = rng.choice(["add", "mul", "div", "sub"])
+                c = rng.choice([2, 0.5, 3, 1.25]) if op != "sub" else rng.choice([-1, -2.5])
+                steps.append(("R", op, c)); toks += ["R", op, q(c)]
+            elif r < 0.55:
+                op = rng.choice(["add", "mul", "div"])
+                c = rng.choice([2, 0.5, 3, 10])
+                steps.append(("L", op, c)); toks += ["L", op, q(c)]
+            elif r < 0.7:
+                op = rng.choice(["add", "mul", "div"])
+                steps.append(("S", op)); toks += ["S", op]
+            elif r < 0.8:
+                steps.append(("R", "pow", 2)); toks += ["R", "pow", "2"]
+            elif r < 0.87 and not steps:        # only on the small original operand (2 ** large overflows in the construct library)
+                steps.append(("L", "pow", 2)); toks += ["L", "pow", "2"]
+            else:
+                steps.append(("G",)); toks += ["G"]; neg = True
+        obj, ref = build(d), build(d)
+        jobs.append((d, steps, obj, ref))
+        reqs.append(f"hist code {wire_opd(d, obj)} " + " ".join(toks))
+    code = core.model_batch("C15", reqs)
+    spec = core.model_batch("C15", [r.replace("hist code", "hist spec", 1) for r in reqs])
+    for (d, steps, obj, ref), rep, srep in zip(jobs, code, spec):
+        case = {"stream": "hist-tie", "U": describe_opd(d), "steps": [list(s_) for s_ in steps]}
+        ctx.count(("hist-tie", repr(d), repr(steps)), True, "hist-tie")
+        if rep != srep:
+            ctx.tie_bad("hist-tie:spec-vs-code", case, rep, srep)
+        try:
+            with warnings.catch_warnings():
+                warnings.simplefilter("ignore")
+                acc = obj
+                for st in steps:
+                    if st[0] == "R":
+                        acc = OPS[st[1]](acc, st[2])
+                    elif st[0] == "L":
+                        acc = OPS[st[1]](st[2], acc)
+                    elif st[0] == "S":
+                        acc = OPS[st[1]](acc, acc)
+                    else:
+                        acc = -acc
+            impl = canon(acc)
+        except BaseException as e:  # noqa
+            impl = ("err", ekind(e))
+        t = rep.split()
+        if t[0] == "err":
+            exp = ("err", t[1])
+        else:
+            try:
+                with warnings.catch_warnings():
+                    warnings.simplefilter("ignore")
+                    l, h = bounds(_eval_hist_term(_P(t[1]).term(), ref.construct))
+                exp = ("ok", l, h, tuple(unq(x) for x in t[2:5]), t[1], t[5], unq(t[6]))
+            except BaseException as e:  # noqa
+                exp = ("err", ekind(e))
+        if agrees(impl, exp):
+            ctx.tie_ok()
+        else:
+            ctx.tie_bad("hist-tie", case, short(impl), short_exp(exp))
+
+
+def _eval_hist_term(t, A):
+    UN, convert_pbox, Pbox, Interval, pint = _mods()
+    head, a = t
+    if head == "A":
+        return A
+    if head == "conv":
+        return convert_pbox(_eval_hist_term(a[0], A))
+    if head == "neg":
+        return -_eval_hist_term(a[0], A)
+    op = OPS[a[0][0]]
+    num = lambda x: float(F(x[0])) if "/" in x[0] or "." in x[0] else int(x[0])
+    if head == "cc":
+        return op(_eval_hist_term(a[1], A), _eval_hist_term(a[2], A))
+    if head == "cn":
+        c = F(a[2][0])
+        return op(_eval_hist_term(a[1], A), int(c) if c.denominator == 1 else float(c))
+    if head == "nc":
+        c = F(a[1][0])
+        return op(int(c) if c.denominator == 1 else float(c), _eval_hist_term(a[2], A))
+    raise ValueError(head)
 
 
 def describe_opd(d):
